@@ -3,7 +3,7 @@ import ast
 
 from .util import *
 from . import state as statepack
-from .c12 import affine, endpoint_exact, rescale_rule, domain_fresh, reports
+from .c12 import affine, endpoint_exact, rescale_rule, domain_fresh, reports, copy_fresh, shared_list
 from .c18 import tzapi_time
 
 EXPLANATION = (
@@ -160,4 +160,5 @@ def state_rule(ctx, R):
     })
 
 
-RULES = [units, inverse, delegate, affine, endpoint_exact, rescale_rule, domain_fresh, reports, tzapi_time, state_rule]
+# TimeScale.copy copies the inner linear scale with LinearScale.copy: a copy that maps differently (or shares a list) breaks the time scale too
+RULES = [units, inverse, delegate, affine, endpoint_exact, rescale_rule, domain_fresh, copy_fresh, shared_list, reports, tzapi_time, state_rule]
